@@ -58,7 +58,7 @@ def extract() -> dict:
         fn = fns["predicate_to_koreo_result"]
         loops = [n for n in ast.walk(fn) if isinstance(n, ast.For)]
         matches = [n for n in ast.walk(fn) if isinstance(n, ast.Match)]
-        if len(loops) != 1 or len(matches) != 1 or loops[0].body != [matches[0]]:
+        if len(matches) != 1 or len(loops) > 1 or (loops and loops[0].body != [matches[0]]):
             ok = False
         else:
             m = matches[0]
